@@ -373,6 +373,27 @@ class PointAnalysis:
         self._param[key] = acc if acc is not None else EMPTY
         return self._param[key]
 
+    def return_tags(self, fn) -> FrozenSet[str]:
+        """tags common to every returned value of a package helper (lets a
+        helper extracted around the filter keep the provenance)."""
+        key = ("ret", id(fn.node))
+        if key in self._param:
+            return self._param[key]
+        if key in self._busy:
+            return ALL_TAGS
+        self._busy.add(key)
+        fl = self.flow(fn)
+        acc = None
+        for node in ast.walk(fn.node):
+            if isinstance(node, ast.Return) and node.value is not None and self.prog.function_of(node) is fn and not isinstance(node.value, ast.Tuple):
+                t = fl.tags(node.value)
+                if t is None:
+                    continue
+                acc = t if acc is None else acc & t
+        self._busy.discard(key)
+        self._param[key] = acc if acc is not None else EMPTY
+        return self._param[key]
+
     def filter_call_tags(self, fn, call) -> FrozenSet[str]:
         fs = self.fs
         b = bind_args(fs.fn, call)
@@ -499,4 +520,11 @@ class PointPolicy(BasePolicy):
                 rets = [r for r in ast.walk(t.node) if isinstance(r, ast.Return)]
                 if len(rets) == 1 and isinstance(rets[0].value, ast.Name) and rets[0].value.id == t.params[0]:
                     return self.eval(expr.args[0], state, flow)
+        pk = [t for t in targets if t.cls is None or t.cls is self.pa.R.bads]
+        if pk and len(pk) == len(targets) and all(t is not self.pa.R.logger_call for t in pk):
+            acc = None
+            for t in pk:
+                r = self.pa.return_tags(t)
+                acc = r if acc is None else acc & r
+            return acc or EMPTY
         return EMPTY
